@@ -336,7 +336,7 @@ func runAgg(r *vk.Run, c Case) {
 	// bounded liveness: faults stop; three rounds of (submit headers, submit data, inclusion pass)
 	if len(a.o.viol) == 0 {
 		for i := 0; i < 3; i++ {
-			for _, act := range []string{"H", "D", "I"} {
+			for _, act := range []string{"H", "D"} {
 				if err := a.do(act); err != nil {
 					if err == world.ErrWatchdog {
 						r.Inconclusive("watchdog")
@@ -346,6 +346,17 @@ func runAgg(r *vk.Run, c Case) {
 				}
 			}
 		}
+		// the node's own wake-ups of the inclusion check must suffice: no external tick here
+		selfWoken := waitD(func() uint64 { return a.o.getD() }, a.height())
+		if !selfWoken && !a.gapAtCrash {
+			for i := 0; i < 3; i++ {
+				_ = a.do("I")
+			}
+			if a.o.getD() == a.height() {
+				a.o.bad("the DA-included height reached %d only after the inclusion check was woken from outside: nothing in the node wakes it once everything is accepted", a.height())
+			}
+		}
+		r.Hit("self-wakeup")
 		d := a.o.observe(a.height())
 		a.soundness(d)
 		dMoved = d - d0
@@ -432,7 +443,7 @@ func runFull(r *vk.Run, p *world.Produced, c Case, acts []world.Action) {
 	cur.Store(f.N)
 	o.getD = func() uint64 { return cur.Load().M.GetDAIncludedHeight() }
 	f.Exec.OnFinal = o.onFinal
-	f.N.DS.OnWrite = o.onWrite
+	chain(f.N.DS, o.onWrite)
 	wit := func() any { return map[string]any{"case": c, "setfinal_log": o.finals} }
 	sound := func(d uint64) {
 		// observed on DA = at a DA height the scan has passed in the current or an earlier process; the
@@ -481,9 +492,9 @@ func runFull(r *vk.Run, p *world.Produced, c Case, acts []world.Action) {
 			o.bad("action %s failed: %v", a, err)
 			return false
 		}
-		if a.Kind == "restart" || a.Kind == "crash-restart" {
+		if a.Kind == "restart" || a.Kind == "crash-restart" || a.NoBarrier {
 			cur.Store(f.N)
-			f.N.DS.OnWrite = o.onWrite
+			chain(f.N.DS, o.onWrite)
 		}
 		actors[a.Kind] = true
 		d := o.observe(chainH())
@@ -500,10 +511,20 @@ func runFull(r *vk.Run, p *world.Produced, c Case, acts []world.Action) {
 	}
 	if ok {
 		// everything is on DA (the schedule placed every blob): a complete scan and three inclusion passes
-		for _, a := range []world.Action{{Kind: "scan"}, {Kind: "include"}, {Kind: "include"}, {Kind: "include"}} {
-			if !step(a) {
-				ok = false
-				break
+		if !step(world.Action{Kind: "scan"}) {
+			ok = false
+		}
+	}
+	if ok {
+		// the node's own wake-ups of the inclusion check must suffice: no external tick here
+		r.Hit("self-wakeup")
+		if !waitD(o.getD, p.Tip()) {
+			r.Hit("self-wakeup-missing")
+			for i := 0; i < 3 && ok; i++ {
+				ok = step(world.Action{Kind: "include"})
+			}
+			if ok && o.getD() == p.Tip() {
+				o.bad("the DA-included height reached the tip %d only after the inclusion check was woken from outside: after the last block was applied nothing in the node wakes it", p.Tip())
 			}
 		}
 	}
@@ -527,6 +548,18 @@ func genFull(rng *rand.Rand, p *world.Produced, id int) (Case, []world.Action) {
 		if len(p.Txs[i]) > 0 {
 			items = append(items, world.Item{D: true, I: i})
 		}
+	}
+	// one case in three: both blobs of the last block arrive alone at the end and the node is stopped cleanly right
+	// when that block has been applied (before the inclusion check ran), then restarted on an idle chain: only the
+	// rescan after the restart can wake the inclusion check
+	var last []world.Item
+	if rng.Intn(3) == 0 {
+		k := len(items) - 1
+		if items[k].D {
+			k--
+		}
+		last = append(last, items[k:]...)
+		items = items[:k]
 	}
 	rng.Shuffle(len(items), func(a, b int) { items[a], items[b] = items[b], items[a] })
 	// mostly near-ordered placement so that inclusion progresses while blobs still arrive
@@ -555,6 +588,9 @@ func genFull(rng *rand.Rand, p *world.Produced, id int) (Case, []world.Action) {
 		case p < 13:
 			acts = append(acts, world.Action{Kind: "da"}) // empty DA height
 		}
+	}
+	if last != nil {
+		acts = append(acts, world.Action{Kind: "da", NoBarrier: true, StopAtExec: 1, DA: last})
 	}
 	c := Case{ID: id, Node: "fullnode", Initial: p.Spec.Initial}
 	for _, a := range acts {
@@ -624,9 +660,9 @@ func Run(r *vk.Run) {
 			defer wg.Done()
 			for j := range ch {
 				if j.p != nil {
-					runFull(r, j.p, j.c, j.acts)
+					r.Guard(j.c, func() { runFull(r, j.p, j.c, j.acts) })
 				} else {
-					runAgg(r, j.c)
+					r.Guard(j.c, func() { runAgg(r, j.c) })
 				}
 			}
 		}()
@@ -636,4 +672,28 @@ func Run(r *vk.Run) {
 	}
 	close(ch)
 	wg.Wait()
+}
+
+// waitD waits (generously) until the reported DA-included height equals want. It returns false if that does not
+// happen - which load alone cannot cause: a pending wake-up is consumed within microseconds.
+func waitD(get func() uint64, want uint64) bool {
+	deadline := time.Now().Add(3 * time.Second)
+	for time.Now().Before(deadline) {
+		if get() == want {
+			return true
+		}
+		time.Sleep(200 * time.Microsecond)
+	}
+	return get() == want
+}
+
+// chain adds a write observer without replacing the one the driver installed (its stop-at-application trigger).
+func chain(ds *world.MemDS, f func(world.WriteRec)) {
+	prev := ds.OnWrite
+	ds.OnWrite = func(rec world.WriteRec) {
+		f(rec)
+		if prev != nil {
+			prev(rec)
+		}
+	}
 }
